@@ -255,6 +255,82 @@ def _explore(out, tier, seed, facts, replay):
                     given = given[:-1]          # one row per pair of consecutive thresholds, labelled by the lower one
                 if [float(row[0]) for row in rows] != given:
                     out.violation("threshold-rows", "threshold rows %r are not the thresholds %s as given" % ([row[0] for row in rows], thr), {"thresholds": thr, "type": typ})
+        # ---- header names against the columns they head: -leg together with a climatology; obsfcst with several quantiles and files ----
+        def wq(name, shift):
+            pth = os.path.join(tmp, name)
+            rows_ = {}
+            with open(pth, "w") as f_:
+                f_.write("unixtime leadtime location obs fcst q0.1 q0.9\n")
+                for t_ in range(3):
+                    for l_ in (0, 6):
+                        o_, c_ = rng.randint(0, 16) / 2.0, rng.randint(0, 16) / 2.0 + shift
+                        rows_.setdefault(float(l_), []).append((o_, c_, c_ - 1 - shift, c_ + 2 + shift))
+                        f_.write("%d %d 1 %g %g %g %g\n" % (86400 * t_, l_, o_, c_, c_ - 1 - shift, c_ + 2 + shift))
+            return pth, rows_
+        fa_, ra_ = wq("qa.txt", 0.0)
+        fb_, rb_ = wq("qb.txt", 5.0)
+        fc_, rc_ = wq("qc.txt", 0.0)
+        mean_ = lambda rows_, l_, i_: sum(r_[i_] for r_ in rows_[l_]) / len(rows_[l_])
+        # (c) the leading fields identify the slice also for station ids and coordinates with more than six digits
+        fbig = os.path.join(tmp, "big.txt")
+        with open(fbig, "w") as f_:
+            f_.write("unixtime leadtime location lat lon altitude obs fcst\n")
+            for i_, la_, lo_, el_ in ((1234567, 59.942312, 10.720011, 94.5), (1234568, -33.5, 151.25, 1234567.5)):
+                for l_ in (0, 6):
+                    f_.write("1325376000 %d %d %r %r %r %g %g\n" % (l_, i_, la_, lo_, el_, rng.randint(0, 8), rng.randint(0, 8)))
+        for typ in ("csv", "text"):
+            r = run_cli(["verif", fbig, "-m", "mae", "-x", "location", "-type", typ])
+            nf += 1
+            if r[0] != "ok":
+                out.violation("output-%s" % r[0], "-x location -type %s on 7-digit station ids: %s" % (typ, r[1][:200]), {"file": open(fbig).read()})
+                continue
+            header, rows = parse_csv(r[1]) if typ == "csv" else parse_text(r[1])
+            try:
+                lead = [[float(x_) for x_ in row[:4]] for row in rows]
+            except ValueError:
+                lead = None
+            if lead != [[1234567.0, 59.942312, 10.720011, 94.5], [1234568.0, -33.5, 151.25, 1234567.5]]:
+                out.violation("descriptor:digits", "verif big.txt -m mae -x location -type %s labels the rows %r; the stations are 1234567 (59.942312, 10.720011, 94.5) and 1234568 (-33.5, 151.25, 1234567.5)"
+                              % (typ, [row[:4] for row in rows]), {"file": open(fbig).read(), "type": typ})
+        for typ in ("csv", "text"):
+            # (a) -leg with -c / -C: one title per verified file, each over its own column
+            for copt in ("-c", "-C"):
+                argv = ["verif", fa_, fb_, copt, fc_, "-leg", "First,Second", "-m", "fcst", "-x", "leadtime", "-type", typ]
+                r = run_cli(argv)
+                nf += 1
+                if r[0] != "ok":
+                    out.violation("legend-climatology:%s" % r[0], "verif qa.txt qb.txt %s qc.txt -leg First,Second -m fcst -type %s ends with %s %s" % (copt, typ, r[0], r[1][:150]), {"argv": argv})
+                    continue
+                header, rows = parse_csv(r[1]) if typ == "csv" else parse_text(r[1])
+                names_ = [h_.strip() for h_ in header[1:]]
+                if names_ != ["First", "Second"] or any(len(row) != 3 for row in rows):
+                    out.violation("legend-climatology", "verif qa.txt qb.txt %s qc.txt -leg First,Second -m fcst -type %s: header %r over rows of %r columns; expected the two titles over two score columns"
+                                  % (copt, typ, header, sorted({len(row) for row in rows})), {"argv": argv})
+            # (b) obsfcst with two quantiles and two files: every named column holds that file's mean of that quantity
+            argv = ["verif", fa_, fb_, "-m", "obsfcst", "-q", "0.1,0.9", "-x", "leadtime", "-type", typ]
+            r = run_cli(argv)
+            nf += 1
+            if r[0] != "ok":
+                out.violation("obsfcst-table:%s" % r[0], "verif qa.txt qb.txt -m obsfcst -q 0.1,0.9 -type %s ends with %s %s" % (typ, r[0], r[1][:150]), {"argv": argv})
+                continue
+            header, rows = parse_csv(r[1]) if typ == "csv" else parse_text(r[1])
+            names_ = [h_.strip() for h_ in header]
+            want_cols = {"obs": (ra_, 0), "qa.txt": (ra_, 1), "qb.txt": (rb_, 1), "qa.txt 10%": (ra_, 2), "qa.txt 90%": (ra_, 3), "qb.txt 10%": (rb_, 2), "qb.txt 90%": (rb_, 3)}
+            if sorted(names_[1:]) != sorted(want_cols):
+                out.violation("obsfcst-table-header", "verif qa.txt qb.txt -m obsfcst -q 0.1,0.9 -type %s: header %r, expected the columns %r" % (typ, names_, sorted(want_cols)), {"argv": argv})
+                continue
+            for row in rows:
+                l_ = float(row[0])
+                for ci_, nm_ in enumerate(names_[1:], start=1):
+                    rows_, i_ = want_cols[nm_]
+                    w_ = mean_(rows_, l_, i_)
+                    if abs(float(row[ci_]) - w_) > (1e-4 if typ == "csv" else 5e-3) * max(1.0, abs(w_)):
+                        out.violation("obsfcst-table-column", "verif qa.txt qb.txt -m obsfcst -q 0.1,0.9 -type %s: the column headed %r holds %r at lead time %g; that quantity's mean there is %r"
+                                      % (typ, nm_, float(row[ci_]), l_, w_), {"argv": argv, "qa.txt": open(fa_).read(), "qb.txt": open(fb_).read()})
+                        break
+                else:
+                    continue
+                break
     finally:
         shutil.rmtree(tmp, ignore_errors=True)
     disagreements = []
